@@ -237,6 +237,11 @@ func updateChildren(client *dynamicclientset.ResourceClient, updateStrategy Chil
 
 	for name, obj := range desired {
 		if ssaOptions.Strategy == ApplyStrategyServerSideApply {
+			// We always claim everything we apply. The controller reference has to
+			// be part of every applied configuration: server-side apply can create
+			// the child, and a later apply without it would drop the reference.
+			obj.SetOwnerReferences(append(obj.GetOwnerReferences(), *MakeControllerRef(parent)))
+
 			data, err := json.Marshal(obj)
 			if err != nil {
 				errs = append(errs, err)
